@@ -228,7 +228,7 @@ def split_trace(path, parts):
 def sharded(cases_path, work, argv_of, shards=8):
     """process spawning scales per parent process, not per thread: run several hv-exec parents side by side"""
     lines = [l for l in open(cases_path).read().split("\n") if l.strip()]
-    shards = max(1, min(shards, (len(lines) + 199) // 200))
+    shards = max(1, min(shards, (len(lines) + 24) // 25))
     procs, outs = [], []
     for i in range(shards):
         part = lines[i::shards]
@@ -321,7 +321,9 @@ def validate_traces(ck, trace, parts, classify, label):
             exp = json.loads(t[3]) if len(t) > 3 else None
             if e.get("ev") == "obs":
                 prog, inp = e["prog"], e["input"]
-                for run in e["bad"]:
+                badruns = e["bad"]
+                badruns = list(badruns.values()) if isinstance(badruns, dict) else badruns
+                for run in badruns:
                     sig = classify(e, run, exp)
                     if sig:
                         ck.violation("%s %s :: program `%s` stdin %s" % (label, sig, prog_text(prog), json.dumps("".join(chr(c) for c in inp), ensure_ascii=False)),
@@ -407,4 +409,91 @@ def check_c01(pid, tier, seed, replay):
     ck.cov["vacuity"]["T_programs"] = len(tcases)
     ck.cov["rule"] = ("R: every behaviour of the TLC-explored program space (all programs up to the bound over three command "
                       "alphabets x input family), compared after every command; T: seeded structured programs x stdin texts")
+    return ck.finish()
+
+
+# ------------------------------------------------------------------------------ C14
+BOUNDARY = [0x0, 0x7F, 0x80, 0x7FF, 0x800, 0xD7FF, 0xE000, 0xFFFF, 0x10000, 0x10FFFF]
+
+
+def rand_text(rng, n):
+    out = []
+    for _ in range(n):
+        r = rng.random()
+        if r < 0.15:
+            c = 10
+        elif r < 0.3:
+            c = rng.choice(BOUNDARY)
+        elif r < 0.6:
+            c = rng.randrange(32, 127)
+        elif r < 0.8:
+            c = rng.randrange(0xAC00, 0xD7A4)
+        else:
+            c = rng.randrange(0, 0x110000)
+            if 0xD800 <= c <= 0xDFFF:
+                c = 0x1F600
+        out.append(c)
+    return out
+
+
+def mc_cat(ck, maxlen):
+    cfg = write_cfg("gen/MC_Cat.cfg", "SPECIFICATION Spec\nCONSTANTS\n  B = 256\n  MaxLen = %d\n  Chars = {97, 0, 10, 65536}\n"
+                    "INVARIANT CatLoopCopies\nINVARIANT CatNCopies\nINVARIANT CatNPastEnd\nINVARIANT EofIsNaN\nINVARIANT PrefixSoFar\nCHECK_DEADLOCK FALSE\n" % maxlen)
+    r = tlc("MC_Cat", cfg, workers=16, timeout=1800, xss="512m")
+    if r.error and "violated" in r.error:
+        raise ToolError("the copy programs do not copy in the language definition itself: %s\n%s" % (r.error, r.raw_tail[-1500:]))
+    require_ok(r, "MC_Cat")
+    ck.add_tlc(r)
+    ck.cov["vacuity"]["MC_Cat_states"] = r.distinct
+
+
+def classify_c14(e, run, exp):
+    if run is None:
+        return None
+    return "%s does not reproduce the input as the definition says" % run.get("how")
+
+
+@register("C14")
+def check_c14(pid, tier, seed, replay):
+    ck = Check(pid, tier, seed, "model_checking")
+    build_harness()
+    ck.assumptions = [
+        "oracle: HyMachine.tla's standard-input / output model evaluated by TLC; MC_Cat shows in-spec that the copy programs reproduce every text up to the bound",
+        "for texts longer than 300 characters the expected output of CatLoop is the input itself, by the MC_Cat theorem (the machine is not re-run on them)",
+        "the compiled half trusts rustc",
+    ]
+    if replay:
+        ck.write_evidence = False
+        return do_replay_machine(ck, replay, classify=classify_c14)
+    quick = tier == "quick"
+    rng = random.Random(seed)
+    mc_cat(ck, 4 if quick else 6)
+    texts = [[c] for c in BOUNDARY] + [[97, c, 98, 10] for c in BOUNDARY] + [
+        cps("a"), cps("ab"), cps("ab\n"), cps("\n"), cps("\n\n"), cps("a\n\nb"), cps("a\r\nb\r\n"), cps("한글 テスト \U0001F600\n끝"),
+        BOUNDARY[:], list(reversed(BOUNDARY)) + [10], cps("no newline at end"), cps("\x00\x00\n\x00"), cps(" \t \n")]
+    texts += [rand_text(rng, rng.randint(1, 60)) for _ in range(40 if quick else 600)]
+    short = [t for t in texts]
+    cases = [{"prog": CAT_LOOP, "inputs": short, "tag": "catloop"}]
+    for n in ([0, 1, 2, 5] if quick else [0, 1, 2, 3, 5, 8, 13]):
+        cases.append({"prog": cat_n(n), "inputs": short + [[]], "tag": "catn"})
+    cases.append({"prog": rev_line(), "inputs": [t for t in short if len(t) >= 3][:40 if quick else 400], "tag": "revline"})
+    # very long lines / many lines: judged by the MC_Cat theorem
+    long_texts = [rand_text(rng, 2000 if quick else 10000)]
+    long_texts.append([c for _ in range(200 if quick else 1000) for c in (rand_text(rng, rng.randint(0, 6)) + [10])])
+    long_texts.append([97] * (3000 if quick else 10000) + [10] + [0x10FFFF] * 50)
+    long_texts = [[c for c in t] for t in long_texts]
+    for t in long_texts:
+        if not t or t[0] == 10 and len(t) == 1:
+            t.append(97)
+    cases.append({"prog": CAT_LOOP, "inputs": long_texts, "tag": "catloop-by-theorem"})
+    work = tmpdir("c14")
+    cpath = os.path.join(work, "cases.json")
+    write_cases(cpath, cases)
+    obs = run_obs(ck, cpath, "fam", levels="0,1,2", clevels="0,1,2", bound=700, timeout_ms=20000)
+    n = validate_traces(ck, obs, 14, classify_c14, "family")
+    ck.cov["vacuity"]["runs_per_text"] = 6
+    ck.cov["vacuity"]["texts"] = len(texts) + len(long_texts)
+    ck.sample({"program": prog_text(CAT_LOOP), "input": "".join(chr(c) for c in texts[25])})
+    ck.sample({"program": prog_text(cat_n(5)), "input": "".join(chr(c) for c in texts[31])})
+    ck.cov["rule"] = "family of copy programs x texts (every plane and UTF-8 length boundary, line-break shapes, seeded random, very long) x {run -O0/-O1/-O2, compiled -O0/-O1/-O2}"
     return ck.finish()
